@@ -12,6 +12,7 @@ import (
 	"crypto/x509"
 	"encoding/pem"
 	"fmt"
+	"math/big"
 	"strconv"
 	"strings"
 	"sync"
@@ -442,7 +443,17 @@ func keyRtCase(env *keyEnv, path string, enc keyEnc, ver kmip.ProtocolVersion, b
 		}
 		got = r.pl
 	}
-	what := keyFmtName(regFmt)
+	keyVerifyPayload(got, b.kind, orig, keyFmtName(regFmt), fail)
+}
+
+// keyVerifyPayload: every accessor that applies to the kind of key returns a key equal to the original, every
+// accessor of another kind an error; algorithm / length of the key block. `fail(oracle, what, detail)` reports.
+func keyVerifyPayload(got *payloads.GetResponsePayload, kind string, orig *keyRtOrig, what string, fail func(oracle, what, detail string)) {
+	b := struct{ kind string }{kind}
+	if got == nil || got.Object == nil {
+		fail("extract", what+":object-type", "no object came back")
+		return
+	}
 	check := func(acc string, f func() (bool, error)) {
 		type res struct {
 			eq  bool
@@ -488,6 +499,14 @@ func keyRtCase(env *keyEnv, path string, enc keyEnc, ver kmip.ProtocolVersion, b
 			return err == nil && ok && rk.Equal(o), err
 		})
 		check("PrivateKey.RSA", func() (bool, error) { k, err := priv.RSA(); return err == nil && k.Equal(o), err })
+		// rsa.PrivateKey.Equal ignores the CRT values: they are compared with the ones the primes determine
+		check("PrivateKey.RSA.Precomputed", func() (bool, error) {
+			k, err := priv.RSA()
+			if err != nil {
+				return false, err
+			}
+			return keyCrtMatches(k, o), nil
+		})
 		check("CryptoPrivateKey", func() (bool, error) {
 			k, err := priv.CryptoPrivateKey()
 			rk, ok := k.(*rsa.PrivateKey)
@@ -696,6 +715,24 @@ func (env *keyEnv) regLine(kind string, kf uint8, ver kmip.ProtocolVersion, orig
 	impl := fmt.Sprintf("ok type=%d f=%d c=%d alg=%d len=%d slot=%s", uint32(obj.ObjectType()), sh.format, sh.comp, uint32(kb.CryptographicAlgorithm), kb.CryptographicLength, slot)
 	env.ctx.Add(line, impl, true, "C14")
 	env.ctx.Res.Count("reg." + kind)
+}
+
+// keyCrtMatches: the CRT values of `got` (Dp, Dq, Qinv) are the ones determined by the first two primes of `orig`.
+func keyCrtMatches(got, orig *rsa.PrivateKey) bool {
+	if len(orig.Primes) < 2 || len(got.Primes) < 2 {
+		return false
+	}
+	p, q := orig.Primes[0], orig.Primes[1]
+	if got.Primes[0].Cmp(p) != 0 || got.Primes[1].Cmp(q) != 0 {
+		return false
+	}
+	one := big.NewInt(1)
+	dp := new(big.Int).Mod(orig.D, new(big.Int).Sub(p, one))
+	dq := new(big.Int).Mod(orig.D, new(big.Int).Sub(q, one))
+	qinv := new(big.Int).ModInverse(q, p)
+	pc := got.Precomputed
+	return pc.Dp != nil && pc.Dq != nil && pc.Qinv != nil && qinv != nil &&
+		pc.Dp.Cmp(dp) == 0 && pc.Dq.Cmp(dq) == 0 && pc.Qinv.Cmp(qinv) == 0
 }
 
 var _ = time.Now
